@@ -6,11 +6,11 @@ import math
 import re
 from decimal import Decimal
 from functools import partial
-from operator import getitem
 from operator import itemgetter
 from typing import TYPE_CHECKING
 from typing import Any
 
+from liquid2.utils.getitem import getitem
 from liquid2.builtin import LambdaExpression
 from liquid2.builtin import Path
 from liquid2.builtin import PositionalArgument
